@@ -15,6 +15,7 @@ import (
 	"sort"
 	"strings"
 	"sync"
+	"time"
 
 	"github.com/sdcio/yang-parser/xpath"
 	"github.com/sdcio/yang-parser/xpath/grammars/expr"
@@ -49,7 +50,7 @@ func (world) Describe() super.Description {
 			"real": []string{"xpath", "xpath/xutils", "xpath/grammars/expr", "xpath/grammars/path_eval", "xpath/grammars/leafref — all instrumented by simrewrite R2 (yields) and R3 (locks)"},
 			"stub": []string{"faulttree (xpath.Entry; immutable tree + per-client Run)", "PfxMapFn", "UserCustomFunctionCheckerFn", "baton scheduler"},
 		},
-		FaultKinds: []string{"schedule-switch", "lock-contention", "Navigate", "GetValue", "FollowLeafRef", "mapFn-error", "first-lookup-in-concurrent-phase"},
+		FaultKinds: []string{"schedule-switch", "lock-contention", "Navigate", "GetValue", "FollowLeafRef", "mapFn-error", "first-lookup-in-concurrent-phase", "garbage-collection-with-finalizers"},
 		Extra:      map[string]any{},
 	}
 	if b, err := os.ReadFile(os.Getenv("VERIF_REWRITE_LOG")); err == nil {
@@ -98,7 +99,8 @@ var grammars = []grammar{
 }
 
 type op struct {
-	kind    int // 0 compile, 1 run shared, 2 run own (last compiled by this client)
+	kind    int // 0 compile, 1 run shared, 2 run own (last compiled by this client), 3 compile and run a machine that nobody keeps
+	gcAt    int // >0: at the run's gcAt-th data-tree callback the client forces a garbage collection and lets the finalizers run
 	gram    int
 	expr    string
 	mapMode int // 0 nil, 1 ok, 2 fails at 2nd call
@@ -149,6 +151,49 @@ func compileOp(o op) (m *xpath.Machine, out outcome) {
 	return m, outcome{text: "MACHINE\n" + m.PrintMachine()}
 }
 
+// forceGC is the "garbage collection now" fault: a full collection, then every finalizer that the
+// collection made runnable is given time to finish (a sentinel object allocated after the first
+// collection is finalised after them: the runtime runs finalizers in queue order on one goroutine).
+// Which objects are unreachable at this point is a function of the program state, which the
+// schedule determines; the only real-time element is the bound on the wait.
+var gcForced, gcWaitTimedOut int
+
+func forceGC() {
+	runtime.GC()
+	done := make(chan struct{})
+	s := new([128]byte)
+	runtime.SetFinalizer(s, func(*[128]byte) { close(done) })
+	s = nil
+	runtime.GC()
+	select {
+	case <-done:
+		gcCount(false)
+	case <-time.After(2 * time.Second):
+		gcCount(true) // a finalizer is stuck behind a lock that a parked client holds: it will run later, at a time the tape does not decide
+	}
+}
+
+// (harness counters touched by whichever client holds the baton: invisible to the race detector on
+// purpose — an atomic here would be a synchronisation edge between clients that the library does not have)
+//
+//go:norace
+func gcCount(timedOut bool) {
+	gcForced++
+	if timedOut {
+		gcWaitTimedOut++
+	}
+}
+
+// runTemp compiles an expression and runs the machine without keeping any reference to it: from the
+// moment the context exists, the machine is garbage.
+func runTemp(o op, tree *faulttree.Tree, tag string, yield bool) outcome {
+	m, oc := compileOp(op{gram: 0, expr: o.expr})
+	if m == nil {
+		return outcome{text: "NO-MACHINE " + oc.text}
+	}
+	return runOp(m, tree, o, tag, yield)
+}
+
 func runOp(m *xpath.Machine, tree *faulttree.Tree, o op, tag string, yield bool) (out outcome) {
 	r := tree.NewRun(tag)
 	r.NoSites = true
@@ -156,7 +201,13 @@ func runOp(m *xpath.Machine, tree *faulttree.Tree, o op, tag string, yield bool)
 		r.FailAt = map[int]bool{o.failAt: true}
 	}
 	if yield {
-		r.Yield = func(method string) { sched.Always("cb:" + method) }
+		ncb := 0
+		r.Yield = func(method string) {
+			if ncb++; ncb == o.gcAt {
+				forceGC()
+			}
+			sched.Always("cb:" + method)
+		}
 	}
 	defer func() {
 		if p := recover(); p != nil {
@@ -359,11 +410,20 @@ func (w world) RunCase(t *tape.Tape, st *super.Stats) *super.Violation {
 		for i := 0; i < n; i++ {
 			g.Ctx = tree.Nodes[t.Draw(len(tree.Nodes))]
 			var o op
-			w0, w1, w2 := 3, 4, 2
+			w0, w1, w2, w3 := 3, 4, 2, 1
 			if crowd {
-				w0, w1, w2 = 0, 1, 0
+				w0, w1, w2, w3 = 0, 1, 0, 0
 			}
-			switch t.Pick(w0, w1, w2) {
+			switch t.Pick(w0, w1, w2, w3) {
+			case 3:
+				// a machine nobody keeps: compiled, given to a context, forgotten while the context runs
+				o = op{kind: 3, ctx: t.Draw(len(tree.Nodes)), expr: g.Expr(2 + t.Draw(4))}
+				if t.Rare(3) {
+					o.failAt = 1 + t.Draw(4)
+				}
+				if t.Coin() {
+					o.gcAt = 1 + t.Draw(4)
+				}
 			case 0:
 				o = op{kind: 0, gram: t.Pick(5, 2, 1, 2, 1), mapMode: t.Pick(3, 3, 1)}
 				wv := 0
@@ -389,10 +449,16 @@ func (w world) RunCase(t *tape.Tape, st *super.Stats) *super.Violation {
 				if t.Rare(3) {
 					o.failAt = 1 + t.Draw(4)
 				}
+				if t.Rare(8) {
+					o.gcAt = 1 + t.Draw(4)
+				}
 			case 2:
 				o = op{kind: 2, ctx: t.Draw(len(tree.Nodes))}
 				if t.Rare(3) {
 					o.failAt = 1 + t.Draw(4)
+				}
+				if t.Rare(8) {
+					o.gcAt = 1 + t.Draw(4)
 				}
 			}
 			progs[c] = append(progs[c], o)
@@ -520,6 +586,8 @@ func (w world) RunCase(t *tape.Tape, st *super.Stats) *super.Violation {
 						m, _ = compileOp(*ownExpr)
 					}
 					out[c][i] = runOp(m, tree2, o, fmt.Sprintf("c%do%d", c, i), false)
+				case 3:
+					out[c][i] = runTemp(o, tree2, fmt.Sprintf("c%do%d", c, i), false)
 				}
 			}
 		}
@@ -545,6 +613,8 @@ func (w world) RunCase(t *tape.Tape, st *super.Stats) *super.Violation {
 					results[c][i] = runOp(shared[o.shared], tree, o, fmt.Sprintf("c%do%d", c, i), true)
 				case 2:
 					results[c][i] = runOp(own, tree, o, fmt.Sprintf("c%do%d", c, i), true)
+				case 3:
+					results[c][i] = runTemp(o, tree, fmt.Sprintf("c%do%d", c, i), true)
 				}
 				sched.Always("op-done")
 			}
@@ -602,6 +672,8 @@ func (w world) RunCase(t *tape.Tape, st *super.Stats) *super.Violation {
 		if first {
 			st.Inc("fault:first-lookup-in-concurrent-phase")
 		}
+		st.Add("fault:garbage-collection-with-finalizers", int64(gcForced))
+		st.Add("observed:finalizer_wait_timed_out", int64(gcWaitTimedOut))
 		if switches > 0 {
 			st.Seen("schedules", super.Hash(sb.String()))
 		}
